@@ -33,7 +33,7 @@ fn pow_big(base: u32, e: u64) -> BigInt {
     num_traits::pow::Pow::pow(BigInt::from(base), e)
 }
 
-fn gen_x(r: &mut Rng, i: u64) -> (Dec, Option<u64>) {
+pub fn gen_x(r: &mut Rng, i: u64) -> (Dec, Option<u64>) {
     // returns x and, for terminating reciprocals, a suggested precision
     match r.below(12) {
         0 | 1 | 2 => {
@@ -166,7 +166,7 @@ pub fn check_case(case: &Case, ctx: &mut Ctx) {
     }
     // default context and `1 / x`
     let (dp, _dm) = default_ctx();
-    if ctx.cases % 3 == 0 || p == dp {
+    if case.hash() % 3 == 0 || p == dp {
         let r = ctx.guard(|| b.inverse());
         let base = judge(ctx, case, "inverse (default context)", r, &x, dp);
         macro_rules! one_over { ($t:ty, $one:expr) => {{
